@@ -195,4 +195,5 @@ def cases(tier):
 
 
 def harnesses(tier):
-    return [("gate", h_gate, cases(tier))]
+    return [("gate", h_gate, cases(tier)),
+            ("gate.raw", h_gate, [c for c in cases(tier) if c["name"] not in ("SWAP", "CCZ", "CCNOT", "CZ_Heralded", "CNOT_Heralded")], dict(raw=True))]
